@@ -243,6 +243,8 @@ def iso(dec, spec):
 
 SIG_DEF_EXTRA_NAME = ("CompositionGraph::export(definition_node, other_name): node.export is overwritten and the exports loop of "
                       "CompositionGraphEncoder::encode skips every definition -> only the last name of a type definition is exported")
+# (repaired: export() renames a definition. The classification below is kept so that a regression is named; it reads the
+#  IMPLEMENTATION's own dump, since the model follows the repaired code and never shows a definition under two names.)
 SIG_IMPORT_DEDUP = ("CompositionGraphEncoder::import returns the index of an already imported instance with the same (semver-track) "
                     "interface id (state.current.instances): an explicit import under another name is not emitted and its node is "
                     "wired to the other import")
@@ -250,9 +252,21 @@ SIG_EXPLICIT_UNWRAP = ("CompositionGraphEncoder::resolve_imports: `.unwrap()` on
                        "semver-compatible with (or equal in track to) another import of a different kind -> panic instead of an EncodeError")
 
 
-def multi_named_defs(row):
-    """export names bound to definition nodes that carry more than one export name (finding: only the last is encoded)"""
-    dump = row["model"].get("dump", "")
+def dump_sections(row, side):
+    dump = row[side].get("dump", "")
+    return dict((m.group(1), m.group(2)) for m in re.finditer(r"([A-Z])\[([^\]]*)\]", dump))
+
+
+def impl_export_names(row, names):
+    """the names of the graph's export map as the IMPLEMENTATION reports them (get_export over the name pool)"""
+    sec = dump_sections(row, "impl")
+    return {names[e.split("=")[0]] for e in filter(None, sec.get("E", "").split(","))}
+
+
+def multi_named_defs(row, side="impl"):
+    """export names bound to definition nodes that carry more than one export name in the export map of the
+    implementation's graph (regression signature of the repaired finding: only the last name was encoded)"""
+    dump = row[side].get("dump", "")
     sec = dict((m.group(1), m.group(2)) for m in re.finditer(r"([A-Z])\[([^\]]*)\]", dump))
     defs = {e.split(":")[0] for e in filter(None, sec.get("N", "").split(",")) if e.split(":")[1] == "D"}
     by_node = {}
